@@ -59,8 +59,8 @@ CLAIMED = {
    "Trusted: the record is read from the collector list that Context::drop feeds (the same data the access log and /api/history receive).",
    "proptest over tunnel histories (in-process) + generated connection mixes against real processes, oracle = exactly-once accounting, lifecycle regular expression, counter equality", "§3 C16"),
  "C14": ("vp-e2e", "fault_enumeration",
-   "Generated stall schedules, each on a fresh real proxy (40 quick / 600 thorough): clients stalled after k bytes of a valid HTTP / SOCKS5 / SOCKS4 / SOCKS5+userpass handshake (k over every offset), requests routed to an http / socks5 / socks4 / quic connector whose upstream goes silent after a strict prefix of its reply, a chatty reverse-UDP client whose session hangs on such an upstream, a QUIC client that goes silent after its first handshake packet, tunnels blocked on a consumer that never reads, then API calls (status, live, history, rules GET/POST, metrics, logrotate) issued concurrently with fresh echo tunnels through every listener (http, socks5, socks4, reverse TCP, reverse UDP, QUIC); everything must complete within 6 s (control phase < 1.5 s, else inconclusive). The hazard is a persistent state (a lock held while a client is silent), so once the stall set is installed a blocking defect shows deterministically.",
-   "Trusted: wall-clock bound of 6 s against a control of milliseconds; stalls inside a TLS handshake are not generated (QUIC handshake stalls are: a relay lets one or two packets of a real handshake through).",
+   "Generated stall schedules, each on a fresh real proxy (40 quick / 600 thorough): clients stalled after k bytes of a valid HTTP / SOCKS5 / SOCKS4 / SOCKS5+userpass handshake (k over every offset), requests routed to an http / socks5 / socks4 / quic connector whose upstream goes silent after a strict prefix of its reply, a chatty reverse-UDP client whose session hangs on such an upstream, a QUIC client that goes silent after its first handshake packet, a TLS client stalled inside its ClientHello, tunnels blocked on a consumer that never reads, then API calls (status, live, history, rules GET/POST, metrics, logrotate) issued concurrently with fresh echo tunnels through every listener (http, socks5, socks4, reverse TCP, reverse UDP, QUIC, https); everything must complete within 6 s (control phase < 1.5 s, else inconclusive). The hazard is a persistent state (a lock held while a client is silent), so once the stall set is installed a blocking defect shows deterministically.",
+   "Trusted: wall-clock bound of 6 s against a control of milliseconds; TLS stalls are a strict prefix of a ClientHello record; QUIC handshake stalls let one or two packets of a real handshake through a dropping relay.",
    "generated fault schedules (stall points x API interleavings) against real processes, oracle = bounded completion", "§3 C14"),
  "C15": ("both", "exploration",
    "(a) 120 (quick) / 4 000 (thorough) model-based API histories on real proxies: valid and single-defect rule lists (8 defect kinds at generated positions), GET, GET-then-POST-back and probes whose serving connector is identified by the address the origin sees; the model is the list in force. (b) in-process stress of set_rules against concurrent process_request on a 6-thread runtime with two lists whose every mixture is detectable (6 x 2 000 flips quick, 200 x 2 000 thorough). (b) is stress, not schedule enumeration.",
